@@ -68,7 +68,7 @@ def order_key(col, v):
     if k == "bytes":
         return bytes.fromhex(v)
     if k == "category":
-        return (float(v) if col["labels"] == "float" else v)
+        return (float(v) if col["labels"] == "float" else bool(v) if col["labels"] == "bool" else v)
     if k == "nullable" and col["sub"] == "boolean":
         return bool(v)
     return v
@@ -109,7 +109,7 @@ def stat_to_key(col, x, opts):
         return bytes(x) if isinstance(x, (bytes, bytearray)) else ("!type", repr(x))
     if k == "float" or (k == "category" and col["labels"] == "float"):
         return float(x)
-    if k == "bool" or (k == "nullable" and col["sub"] == "boolean"):
+    if k == "bool" or (k == "nullable" and col["sub"] == "boolean") or (k == "category" and col["labels"] == "bool"):
         return bool(x) if isinstance(x, bool) else ("!type", repr(x))
     return int(x) if isinstance(x, int) and not isinstance(x, bool) else ("!type", repr(x))
 
@@ -139,7 +139,7 @@ def api_stat_to_key(col, x, opts):
             return bytes(x) if isinstance(x, (bytes, np.bytes_)) else ("!type", repr(x))
         if k == "float" or (k == "category" and col["labels"] == "float"):
             return float(x)
-        if k == "bool" or (k == "nullable" and col["sub"] == "boolean"):
+        if k == "bool" or (k == "nullable" and col["sub"] == "boolean") or (k == "category" and col["labels"] == "bool"):
             return bool(x)
         if k == "json":
             return ("!json_stat", repr(x))
